@@ -144,7 +144,8 @@ static char **dec_list(const char *tok, int *n)
   char **r = calloc(130, sizeof(char *)); *n = 0;
   if (tok[0] == '-') return r;
   char *c = strdup(tok);
-  for (char *p = strtok(c, ","); p && *n < 128; p = strtok(NULL, ",")) r[(*n)++] = dec(p);
+  char *sv = NULL;                      /* strtok_r: scenarios run in several threads at once */
+  for (char *p = strtok_r(c, ",", &sv); p && *n < 128; p = strtok_r(NULL, ",", &sv)) r[(*n)++] = dec(p);
   free(c);
   return r;
 }
@@ -381,7 +382,8 @@ static void run_stream(FILE *in)
     if (line[n - 1] == '\n') line[--n] = 0;
     if (!n || line[0] == '#') continue;
     char *t[16]; int nt = 0;
-    for (char *p = strtok(line, " "); p && nt < 16; p = strtok(NULL, " ")) t[nt++] = p;
+    char *sv = NULL;
+    for (char *p = strtok_r(line, " ", &sv); p && nt < 16; p = strtok_r(NULL, " ", &sv)) t[nt++] = p;
     const char *c = t[0];
     if (!strcmp(c, "reset")) {
       for (int i = 0; i < MAXOBJ; i++) if (objs[i]) { econf_free(objs[i]); objs[i] = NULL; }
